@@ -41,13 +41,71 @@ def gen_undo():
             raise ExtractError(f'{name}: undo/redo not found')
         return re.sub(r'\s+', ' ', um.group(0)).strip(), re.sub(r'\s+', ' ', rm.group(0)).strip()
 
+    # ---- constants of the operations modelled since the font/area/paste records joined the model
+    m = re.search(r'pub const BLINK: u16 = (0b[01_]+);', ta)
+    if not m:
+        raise ExtractError('attribute::BLINK not found')
+    blink = int(m.group(1).replace('_', ''), 2)
+    if blink & (blink - 1) != 0 or blink == 0:
+        raise ExtractError('attribute::BLINK is no longer a single bit')
+    m = re.search(r'pub const TRANSPARENT_COLOR: u32 = 1 << (\d+);', ta)
+    if not m:
+        raise ExtractError('TextAttribute::TRANSPARENT_COLOR changed shape')
+    transparent = 1 << int(m.group(1))
+    lo = src('src/editor/layer_operations.rs')
+    m = re.search(r'static ref ROTATE_TABLE: HashMap<u8, u8> = HashMap::from\(\[(.*?)\]\);', lo, re.S)
+    if not m:
+        raise ExtractError('ROTATE_TABLE not found')
+    body = re.sub(r'//[^\n]*', '', m.group(1))
+    rot = [(int(a), int(b)) for a, b in re.findall(r'\((\d+),\s*(\d+)\)', body)]
+    if len(rot) < 40:
+        raise ExtractError('ROTATE_TABLE too short')
+    # HashMap::from keeps the LAST value of a repeated key
+    rotd = {}
+    for a, b in rot:
+        rotd[a] = b
+    ftl = src('i18n/en/icy_engine.ftl')
+    names = {}
+    for key in ['layer-new-name', 'layer-pasted-name', 'layer-duplicate-name']:
+        mm = re.search(r'^' + key + r'=(.*)$', ftl, re.M)
+        if not mm:
+            raise ExtractError(key + ' not found in the English message file')
+        names[key] = mm.group(1)
+    mm = re.fullmatch(r'(.*)\{ \$name \}(.*)', names['layer-duplicate-name'])
+    if not mm:
+        raise ExtractError('layer-duplicate-name changed shape')
+    dup_pre, dup_post = mm.group(1), mm.group(2)
+    ph = src('src/palette_handling.rs')
+    m = re.search(r'pub const DOS_DEFAULT_PALETTE: \[Color; 16\] = \[(.*?)\n\];', ph, re.S)
+    if not m:
+        raise ExtractError('DOS_DEFAULT_PALETTE not found')
+    cols = re.findall(r'r: 0x([0-9A-Fa-f]{2}),\s*g: 0x([0-9A-Fa-f]{2}),\s*b: 0x([0-9A-Fa-f]{2}),', m.group(1))
+    if len(cols) != 16:
+        raise ExtractError('DOS_DEFAULT_PALETTE: expected 16 colours')
+    dos = [int(r, 16) * 65536 + int(g, 16) * 256 + int(b, 16) for r, g, b in cols]
+    fo = src('src/editor/font_operations.rs')
+    if 'PaletteMode::Fixed16 => Palette::from_slice(&DOS_DEFAULT_PALETTE)' not in fo:
+        raise ExtractError('set_palette_mode: Fixed16 arm changed')
+
     modelled = ['AtomicUndo', 'UndoSetChar', 'UndoSwapChar', 'AddLayer', 'RemoveLayer', 'RaiseLayer', 'LowerLayer', 'ToggleLayerVisibility',
                 'MoveLayer', 'SetLayerSize', 'ResizeBuffer', 'UndoLayerChange', 'Crop', 'DeleteRow', 'InsertRow', 'DeleteColumn',
-                'InsertColumn', 'UndoScrollWholeLayerUp', 'UndoScrollWholeLayerDown', 'ClearLayer', 'Deselect', 'SelectNothing', 'SetSelection']
+                'InsertColumn', 'UndoScrollWholeLayerUp', 'UndoScrollWholeLayerDown', 'ClearLayer', 'Deselect', 'SelectNothing', 'SetSelection',
+                'MergeLayerDown', 'Paste', 'AddFloatingLayer', 'RotateLayer', 'ReversedUndo', 'ReverseCaretPosition', 'SetSelectionMask',
+                'AddSelectionToMask', 'InverseSelection', 'SwitchPalettte', 'SetSauceData', 'SwitchToFontPage', 'SetFont', 'AddFont',
+                'SwitchPalette', 'SetIceMode', 'ReplaceFontUsage', 'RemoveFont', 'ChangeFontSlot', 'UpdateLayerProperties']
     out = [HEADER, 'namespace IcyVerif.Gen.Undo\n']
     out.append(f'/-- `attribute::INVISIBLE` -/\ndef attrInvisible : Nat := {invisible}\n')
     out.append(f'/-- `TextAttribute::default()` -/\ndef defaultFg : Nat := {fg}\ndef defaultBg : Nat := {bg}\ndef defaultPage : Nat := {page}\n')
     out.append(f'/-- the character of `AttributedChar::invisible()` -/\ndef invisibleCh : Nat := {inv_ch}\n')
+    out.append(f'/-- `attribute::BLINK` -/\ndef attrBlink : Nat := {blink}\n')
+    out.append(f'/-- `TextAttribute::TRANSPARENT_COLOR` -/\ndef transparentColor : Nat := {transparent}\n')
+    out.append('/-- `ROTATE_TABLE` of layer_operations.rs (key, value), one entry per key -/\n')
+    out.append('def rotateTable : List (Nat × Nat) := [' + ', '.join(f'({a}, {b})' for a, b in sorted(rotd.items())) + ']\n')
+    out.append(f'/-- layer titles of the English message file -/\ndef layerNewName : String := {json.dumps(names["layer-new-name"])}\n')
+    out.append(f'def layerPastedName : String := {json.dumps(names["layer-pasted-name"])}\n')
+    out.append(f'def layerDuplicatePrefix : String := {json.dumps(dup_pre)}\ndef layerDuplicateSuffix : String := {json.dumps(dup_post)}\n')
+    out.append('/-- `DOS_DEFAULT_PALETTE` as 0xRRGGBB -/\n')
+    out.append('def dosDefaultPalette : List Nat := [' + ', '.join(map(str, dos)) + ']\n')
     out.append('/-- every `impl UndoOperation for …` in undo_operations.rs, in source order -/\n')
     out.append('def recordTypes : List String := [' + ', '.join(json.dumps(r) for r in records) + ']\n')
     out.append('/-- the record types the Lean model transcribes -/\n')
